@@ -132,7 +132,7 @@ Qed.
 
 Lemma step_sim : forall fuel h os st o, R (IS h os) st -> fin_op o -> sim_goal fuel h os st o.
 Proof.
-  intros fuel h os st o HR Hfo. destruct o as [i|i c|i c|i c|i c|i|i p|i f|i p|i n|i|i n|z n|z n|i j|m|e].
+  intros fuel h os st o HR Hfo. destruct o as [i|i c|i c|i c|i c|i|i p|i f|i p|i n|i|i n|z n|z n|i j|m|e|tgt args].
   - apply sim_next; exact HR.
   - apply sim_take; exact HR.
   - apply sim_peek; exact HR.
@@ -151,6 +151,7 @@ Proof.
   - apply sim_appendobj; exact HR.
   - intros ist' ob Hi _. cbn in *. inversion Hi; subst. eexists. split; [reflexivity|exact HR].
   - intros ist' ob Hi _. cbn in *. inversion Hi; subst. eexists. split; [reflexivity|exact HR].
+  - contradiction.
 Qed.
 
 Lemma run_sim : forall fuel ops ist st, R ist st -> Forall fin_op ops ->
